@@ -4,6 +4,7 @@ package main
 // the top level, interface obligations, solving.
 
 import (
+	"encoding/json"
 	"fmt"
 	"go/types"
 	"os"
@@ -78,6 +79,9 @@ func (P *Prog) ifaceContractsFor(fn *ssa.Function) []*Contract {
 			continue
 		}
 		if types.Implements(rt, iface) {
+			if _, isPtr := rt.(*types.Pointer); !isPtr && contractUsesGhostOnThis(c) {
+				continue // typestate ghosts are attached to object identity; value receivers have none
+			}
 			out = append(out, c)
 		}
 	}
@@ -220,8 +224,52 @@ func (P *Prog) buildVC(fn *ssa.Function, opts *VerifyOpts, houdini bool) (res *F
 			ex.vc.assert(safeEval(e2, cl))
 		}
 	}
+	// ghost updates anchored at entry (own contract and inherited interface contracts)
+	ghostAt := func(anchor string, st *State, res []Val) *State {
+		apply := func(cc *Contract, vars map[string]Val) {
+			for _, g := range cc.Ghost {
+				if g.At != anchor {
+					continue
+				}
+				st = st.clone()
+				e := ex.newEnv(st, st0, dummy)
+				e.pkg = contractPkg(cc.Func)
+				for k, v := range vars {
+					e.vars[k] = v
+				}
+				if res != nil {
+					for i, n := range contractResultNames(cc, fn.Signature) {
+						e.vars[n] = res[i]
+					}
+				}
+				func() {
+					defer func() {
+						if r := recover(); r != nil {
+							if se, ok := r.(specErr); ok {
+								panic(unsupported{fmt.Sprintf("ghost-update error in %s: %s (%s)", cc.Where, se.msg, g.Src)})
+							}
+							panic(r)
+						}
+					}()
+					e.assignGhost(g.LHS, g.RHS)
+				}()
+			}
+		}
+		if c != nil {
+			apply(c, env.vars)
+		}
+		for _, ic := range ifcs {
+			apply(ic, ifEnvVars(ic))
+		}
+		return st
+	}
+	start := ghostAt("entry", st0, nil)
+	if start == st0 {
+		start = st0
+	}
 	// run
-	fr, exit, results := ex.runFunc(fn, params, free, st0, false, 0)
+	fr, exit, results := ex.runFunc(fn, params, free, start, false, 0)
+	dummy.vals = fr.vals
 	res.Loops = len(fr.loops)
 	for _, li := range fr.loops {
 		if len(li.candsUsed) > 0 {
@@ -239,7 +287,7 @@ func (P *Prog) buildVC(fn *ssa.Function, opts *VerifyOpts, houdini bool) (res *F
 		return res
 	}
 	// ghost updates at exit
-	exit = fr.applyGhost("exit", exit)
+	exit = ghostAt("exit", exit, results)
 	// cover: exit reachable
 	cov := &Obligation{Name: funcKey(fn) + "#cover[exit]", Kind: "cover", Fn: funcKey(fn), Mark: ex.vc.mark(), Goal: Not(exit.reach), vc: ex.vc}
 	ex.covers = append(ex.covers, cov)
@@ -282,6 +330,11 @@ func (P *Prog) buildVC(fn *ssa.Function, opts *VerifyOpts, houdini bool) (res *F
 	// type invariants of modified receivers/params at exit
 	for i, p := range fn.Params {
 		P.checkTypeInv(ex, fr, exit, params[i], p.Type())
+	}
+	for i, r := range results {
+		if isPointer(r.T) && len(r.L) > 0 {
+			P.checkTypeInv(ex, fr, exit, r, fn.Signature.Results().At(i).Type())
+		}
 	}
 	if opts != nil && opts.Extra != nil {
 		opts.Extra(ex, fr, exit, results, penv)
@@ -351,6 +404,18 @@ func (P *Prog) assumeTypeInv(ex *Exec, st *State, v Val, t types.Type, fr *Frame
 	}
 }
 
+// assumeTypeInvAt is assumeTypeInv guarded by the state's reach condition.
+func (P *Prog) assumeTypeInvAt(ex *Exec, st *State, v Val, t types.Type, fr *Frame) {
+	for _, it := range P.invTargets(ex, v, t) {
+		env := ex.newEnv(st, st, fr)
+		env.pkg = it.tn[:strings.Index(it.tn, ".")]
+		env.vars["this"] = it.v
+		for _, c := range it.cs {
+			ex.vc.assert(Implies(And(st.reach, Ne(v.L[0], Int(0))), safeEval(env, c)))
+		}
+	}
+}
+
 func (P *Prog) checkTypeInv(ex *Exec, fr *Frame, st *State, v Val, t types.Type) {
 	for _, it := range P.invTargets(ex, v, t) {
 		env := ex.newEnv(st, ex.entry, fr)
@@ -372,9 +437,17 @@ func (P *Prog) frameObligations(ex *Exec, fr *Frame, c *Contract, env *SpecEnv, 
 	keys := P.modset(fr.fn)
 	whole := map[string]bool{}
 	targets := map[string][][]Term{}
+	var starRefs []Term
+	var starTypes []types.Type
 	for _, m := range c.Modifies {
 		if m.Whole {
 			whole[m.Key] = true
+			continue
+		}
+		if m.Star {
+			sv := env.eval(m.E)
+			starRefs = append(starRefs, refOf(sv))
+			starTypes = append(starTypes, sv.T)
 			continue
 		}
 		for _, tl := range env.evalLocs(m.E) {
@@ -408,7 +481,7 @@ func (P *Prog) frameObligations(ex *Exec, fr *Frame, c *Contract, env *SpecEnv, 
 			goal = Eq(nw, old)
 		} else {
 			r := Term{"fr", SInt}
-			conds := []Term{Le(r, st0.alloc), Ge(r, Int(0))}
+			conds := []Term{Le(r, st0.alloc), Ge(r, Int(1))}
 			rowOnly := true
 			for _, idx := range targets[n] {
 				if len(idx) == 2 {
@@ -431,6 +504,13 @@ func (P *Prog) frameObligations(ex *Exec, fr *Frame, c *Contract, env *SpecEnv, 
 				for _, idx := range targets[n] {
 					conds = append(conds, Ne(r, idx[0]))
 				}
+				if strings.HasPrefix(n, "H$") {
+					for si, sr := range starRefs {
+						if P.starAffects(h, starTypes[si]) {
+							conds = append(conds, Ne(r, sr))
+						}
+					}
+				}
 				goal = Forall([]string{"fr"}, Implies(And(conds...), Eq(Select(nw, r), Select(old, r))))
 			}
 		}
@@ -449,8 +529,12 @@ func (P *Prog) solveAll(obls []*Obligation, opts *VerifyOpts) {
 		wg.Add(1)
 		go func(o *Obligation) {
 			defer wg.Done()
-			script := o.vc.query(o.Mark, nil, o.Goal, false)
-			o.Res = solve(script, opts.OutDir, o.Name, opts.Timeout, opts.Solvers)
+			sliced, _ := o.vc.slicedQuery(o.Mark, o.Goal)
+			o.Res = solve(sliced, opts.OutDir, o.Name+".slice", 3, "z3")
+			if o.Res.Status != "unsat" {
+				script := o.vc.query(o.Mark, nil, o.Goal, false)
+				o.Res = solve(script, opts.OutDir, o.Name, opts.Timeout, opts.Solvers)
+			}
 		}(o)
 	}
 	wg.Wait()
@@ -461,8 +545,8 @@ func (P *Prog) solveAll(obls []*Obligation, opts *VerifyOpts) {
 func (P *Prog) verifyFunc(fn *ssa.Function, opts *VerifyOpts) *FuncResult {
 	start := time.Now()
 	key := funcKey(fn)
-	if opts.Houdini && P.hasUnannotatedLoops(fn) {
-		P.houdini(fn, opts)
+	if opts.Houdini {
+		P.houdiniDeps(fn, opts, map[*ssa.Function]bool{})
 	}
 	res := P.buildVC(fn, opts, false)
 	if res.Unsupported == "" && !opts.NoSolve {
@@ -502,10 +586,101 @@ func (P *Prog) hasUnannotatedLoops(fn *ssa.Function) bool {
 	return len(c.Loops) == 0
 }
 
+// houdiniDeps runs invariant inference bottom-up over the in-repo callees
+// that would be inlined (no contract) and contain unannotated loops.
+func (P *Prog) houdiniDeps(fn *ssa.Function, opts *VerifyOpts, visited map[*ssa.Function]bool) {
+	if visited[fn] {
+		return
+	}
+	visited[fn] = true
+	for _, b := range fn.Blocks {
+		for _, in := range b.Instrs {
+			c, ok := in.(ssa.CallInstruction)
+			if !ok {
+				continue
+			}
+			g := c.Common().StaticCallee()
+			if g == nil || !P.inRepo[g] || g.Blocks == nil || P.contractFor(g) != nil {
+				continue
+			}
+			P.houdiniDeps(g, opts, visited)
+		}
+	}
+	if P.hasUnannotatedLoops(fn) && !P.houdiniDone[fn] {
+		P.houdini(fn, opts)
+	}
+}
+
 // houdini finds the largest inductive subset of candidate invariants.
 func (P *Prog) houdini(fn *ssa.Function, opts *VerifyOpts) {
+	if P.houdiniDone == nil {
+		P.houdiniDone = map[*ssa.Function]bool{}
+	}
+	P.houdiniDone[fn] = true
 	if P.autoInv == nil {
 		P.autoInv = map[string]map[string]bool{}
+	}
+	// dry run to learn which heaps the function touches (frame candidates)
+	P.buildVC(fn, opts, false)
+	// fast path: the invariants recorded when the baseline was made. They are
+	// re-proved here; only if one of them no longer holds is inference repeated.
+	if P.hints != nil && !P.rebase {
+		used := false
+		for k, v := range P.hints {
+			if strings.HasPrefix(k, funcKey(fn)+"/loop") {
+				P.autoInv[k] = map[string]bool{}
+				for _, l := range v {
+					P.autoInv[k][l] = true
+				}
+				used = true
+			}
+		}
+		if used {
+			res := P.buildVC(fn, opts, false)
+			ok := res.Unsupported == ""
+			var cand []*Obligation
+			nLabels := 0
+			for _, ls := range res.AutoInv {
+				nLabels += len(ls)
+			}
+			want := 0
+			for k, v := range P.hints {
+				if strings.HasPrefix(k, funcKey(fn)+"/loop") {
+					want += len(v)
+				}
+			}
+			if nLabels != want {
+				ok = false // a recorded candidate no longer exists (code changed)
+			}
+			if ok {
+				for _, o := range res.Obls {
+					if o.Kind == "auto-entry" || o.Kind == "auto-keep" {
+						cand = append(cand, o)
+					}
+				}
+				var wg sync.WaitGroup
+				for _, o := range cand {
+					wg.Add(1)
+					go func(o *Obligation) {
+						defer wg.Done()
+						sliced, _ := o.vc.slicedQuery(o.Mark, o.Goal)
+						o.Res = solve(sliced, opts.OutDir, o.Name+".hint", 3, "z3")
+						if o.Res.Status != "unsat" {
+							o.Res = solve(o.vc.query(o.Mark, nil, o.Goal, false), opts.OutDir, o.Name+".hint", 10, "")
+						}
+					}(o)
+				}
+				wg.Wait()
+				for _, o := range cand {
+					if o.Res.Status != "unsat" {
+						ok = false
+					}
+				}
+			}
+			if ok {
+				return
+			}
+		}
 	}
 	// first run: all candidates
 	var keep map[string]map[string]bool
@@ -543,19 +718,56 @@ func (P *Prog) houdini(fn *ssa.Function, opts *VerifyOpts) {
 				cand = append(cand, o)
 			}
 		}
-		o2 := *opts
-		o2.Filter = nil
-		o2.Timeout = 5
-		P.solveAll(cand, &o2)
+		// candidates that are inductive prove quickly; anything slower is dropped
+		var cwg sync.WaitGroup
+		for _, o := range cand {
+			cwg.Add(1)
+			go func(o *Obligation) {
+				defer cwg.Done()
+				sliced, _ := o.vc.slicedQuery(o.Mark, o.Goal)
+				o.Res = solve(sliced, opts.OutDir, o.Name+".cand", 2, "z3")
+				quantified := strings.Contains(o.Label, "/frame ")
+				if o.Res.Status != "unsat" && !(quantified && o.Res.Status == "timeout") {
+					// the slice may have dropped a needed definition: retry on the full VC
+					full := o.vc.query(o.Mark, nil, o.Goal, false)
+					t := 2
+					if !quantified {
+						t = 8
+					}
+					o.Res = solve(full, opts.OutDir, o.Name+".cand", t, "z3,cvc5")
+				}
+			}(o)
+		}
+		cwg.Wait()
+		if os.Getenv("GOVC_DEBUG") != "" {
+			cnt := map[string]int{}
+			for _, o := range cand {
+				cnt[o.Res.Status]++
+				if o.Res.Status != "unsat" {
+					fmt.Fprintf(os.Stderr, "    cand %s %s %.1fs\n", o.Res.Status, o.Name, o.Res.Time)
+				}
+			}
+			fmt.Fprintf(os.Stderr, "  houdini %s iter %d: %v\n", funcKey(fn), iter, cnt)
+		}
 		dropped := false
 		for _, o := range cand {
 			if o.Res.Status != "unsat" {
 				// label: loopN/<cand>
 				i := strings.Index(o.Label, "/")
 				lk := fmt.Sprintf("%s/%s", funcKey(fn), o.Label[:i])
-				if keep[lk][o.Label[i+1:]] {
-					delete(keep[lk], o.Label[i+1:])
+				lab := o.Label[i+1:]
+				if keep[lk][lab] {
+					delete(keep[lk], lab)
 					dropped = true
+				}
+				// leaves of one value stand or fall together
+				if j := strings.LastIndex(lab, "."); j > 0 && (strings.HasPrefix(lab, "keep ") || strings.HasPrefix(lab, "frame ")) {
+					stem := lab[:j+1]
+					for other := range keep[lk] {
+						if strings.HasPrefix(other, stem) && isLeafSuffix(other[j+1:]) && isLeafSuffix(lab[j+1:]) {
+							delete(keep[lk], other)
+						}
+					}
 				}
 			}
 		}
@@ -593,4 +805,203 @@ func cleanDir(d string) {
 	for _, f := range files {
 		os.Remove(f)
 	}
+}
+
+
+// callContract is the contract callers may rely on at a static call of fn:
+// fn's own contract plus the contracts of the interface methods it implements
+// (with parameter names rewritten), since fn is verified against both.
+func (P *Prog) callContract(fn *ssa.Function) *Contract {
+	if P.callC == nil {
+		P.callC = map[*ssa.Function]*Contract{}
+	}
+	if c, ok := P.callC[fn]; ok {
+		return c
+	}
+	own := P.contractFor(fn)
+	ifcs := P.ifaceContractsFor(fn)
+	if len(ifcs) == 0 || fn.Synthetic != "" {
+		P.callC[fn] = own
+		return own
+	}
+	c := &Contract{Func: funcKey(fn), Kind: "func", Loops: map[int]*LoopSpec{}, Props: map[string]bool{}}
+	if own != nil {
+		cp := *own
+		c = &cp
+		c.Requires = append([]Clause{}, own.Requires...)
+		c.Ensures = append([]Clause{}, own.Ensures...)
+		c.Modifies = append([]ModItem{}, own.Modifies...)
+	}
+	realNames := contractParamNames(c, fn.Signature, false)
+	realRes := contractResultNames(c, fn.Signature)
+	have := map[string]bool{}
+	for _, r := range c.Requires {
+		have["r:"+r.Src] = true
+	}
+	for _, r := range c.Ensures {
+		have["e:"+r.Src] = true
+	}
+	for _, ic := range ifcs {
+		in := contractParamNames(ic, fn.Signature, true)
+		ir := contractResultNames(ic, fn.Signature)
+		ren := map[string]string{}
+		for i := range in {
+			if i < len(realNames) {
+				ren[in[i]] = realNames[i]
+			}
+		}
+		for i := range ir {
+			if i < len(realRes) {
+				ren[ir[i]] = realRes[i]
+			}
+		}
+		for _, r := range ic.Requires {
+			if have["r:"+r.Src] {
+				continue
+			}
+			c.Requires = append(c.Requires, Clause{Label: r.Label, E: renameSpec(r.E, ren), Src: r.Src, Where: r.Where})
+		}
+		for _, r := range ic.Ensures {
+			if have["e:"+r.Src] {
+				continue
+			}
+			c.Ensures = append(c.Ensures, Clause{Label: r.Label, E: renameSpec(r.E, ren), Src: r.Src, Where: r.Where})
+		}
+		for _, m := range ic.Modifies {
+			mm := m
+			if m.E != nil {
+				mm.E = renameSpec(m.E, ren)
+			}
+			c.Modifies = append(c.Modifies, mm)
+		}
+		c.HasMod = c.HasMod || ic.HasMod
+		if contractPkg(c.Func) == "" {
+			c.Func = funcKey(fn)
+		}
+	}
+	P.callC[fn] = c
+	return c
+}
+
+func renameSpec(e SExpr, ren map[string]string) SExpr {
+	switch x := e.(type) {
+	case *SIdent:
+		if n, ok := ren[x.Name]; ok {
+			return &SIdent{n}
+		}
+		return x
+	case *SField:
+		return &SField{renameSpec(x.X, ren), x.Name}
+	case *SIndex:
+		return &SIndex{renameSpec(x.X, ren), renameSpec(x.I, ren)}
+	case *SUnary:
+		return &SUnary{x.Op, renameSpec(x.X, ren)}
+	case *SBinary:
+		return &SBinary{x.Op, renameSpec(x.X, ren), renameSpec(x.Y, ren)}
+	case *SCond:
+		return &SCond{renameSpec(x.C, ren), renameSpec(x.A, ren), renameSpec(x.B, ren)}
+	case *SQuant:
+		sub := map[string]string{}
+		for k, v := range ren {
+			sub[k] = v
+		}
+		for _, v := range x.Vars {
+			delete(sub, v)
+		}
+		return &SQuant{x.Forall, x.Vars, renameSpec(x.Body, sub)}
+	case *SCall:
+		n := &SCall{Fun: x.Fun, Raw: x.Raw}
+		if x.Recv != nil {
+			n.Recv = renameSpec(x.Recv, ren)
+		}
+		for _, a := range x.Args {
+			if a == nil {
+				n.Args = append(n.Args, nil)
+			} else {
+				n.Args = append(n.Args, renameSpec(a, ren))
+			}
+		}
+		return n
+	}
+	return e
+}
+
+
+func contractUsesGhostOnThis(c *Contract) bool {
+	found := false
+	var walk func(e SExpr)
+	walk = func(e SExpr) {
+		switch x := e.(type) {
+		case *SField:
+			if id, ok := x.X.(*SIdent); ok && id.Name == "this" && strings.HasPrefix(x.Name, "$") {
+				found = true
+			}
+			walk(x.X)
+		case *SIndex:
+			walk(x.X)
+			walk(x.I)
+		case *SUnary:
+			walk(x.X)
+		case *SBinary:
+			walk(x.X)
+			walk(x.Y)
+		case *SCond:
+			walk(x.C)
+			walk(x.A)
+			walk(x.B)
+		case *SQuant:
+			walk(x.Body)
+		case *SCall:
+			if x.Recv != nil {
+				walk(x.Recv)
+			}
+			for _, a := range x.Args {
+				if a != nil {
+					walk(a)
+				}
+			}
+		}
+	}
+	for _, r := range c.Requires {
+		walk(r.E)
+	}
+	for _, r := range c.Ensures {
+		walk(r.E)
+	}
+	return found
+}
+
+
+func isLeafSuffix(s string) bool {
+	switch s {
+	case "arr", "off", "len", "cap", "tag", "pl":
+		return true
+	}
+	return false
+}
+
+// loadHints / saveHints: inferred loop invariants recorded with the baseline.
+func (P *Prog) loadHints(path string) {
+	data, err := os.ReadFile(path)
+	if err != nil {
+		return
+	}
+	m := map[string][]string{}
+	if json.Unmarshal(data, &m) == nil {
+		P.hints = m
+	}
+}
+
+func (P *Prog) saveHints(path string) {
+	m := map[string][]string{}
+	for k, v := range P.autoInv {
+		var ls []string
+		for l := range v {
+			ls = append(ls, l)
+		}
+		sort.Strings(ls)
+		m[k] = ls
+	}
+	data, _ := json.MarshalIndent(m, "", " ")
+	os.WriteFile(path, data, 0o644)
 }
